@@ -27,15 +27,22 @@ RUN_MODULES = ["Run.RunC03"]
 RULE = ("random histories (<= 12 operations quick, <= 60 thorough) over 4-8 variables in a generated class family: construct "
         "(children taken from any position of any held tree, so trees share nodes), duplicate, dataclasses.replace and "
         "ASTNode.replace (succeeding; failing with a non-init key / an unknown key), detach, detach_self (also on inner and "
-        "on already detached nodes), drop of a variable + gc, read-only calls; biased to content-identical twins and to the "
+        "on already detached nodes), drop of a variable + gc, read-only calls, as_dict of a held (sub)tree into one of 3 value "
+        "slots and Cls.as_obj of a slot into a variable (scenarios: everything alive - the very same objects must come back; "
+        "the whole tree dropped first - a fresh process; partly alive - the parent dropped / detach_self'ed / replaced / "
+        "detached while its children are held by other variables, biased to children that are NO instance of the first member "
+        "of a union-typed child field; twins and suffixed ids; results of as_obj at digest sizes below 8 are opaque to the "
+        "generator and only used by class-independent operations); biased to content-identical twins and to the "
         "scripts detach->twin->detach/replace, replace of a detached node, drop->re-create; ID_DIGEST_SIZE in {1,2,8}. "
         "About 60% of the class families validate in their own __post_init__ AFTER super().__post_init__() (a rejected value of "
         "an int/str property - usually an added non-comparable keyword-only one, so that a replace() setting only it builds the "
-        "replacement under the original's own id - or an id ending in _1/_2): constructor, dataclasses.replace, replace() and "
-        "duplicate() (half-way) then raise with the new node(s) already registered. "
+        "replacement under the original's own id - or an id ending in _1/_2), raising per rule one of ValueError, TypeError, "
+        "RuntimeError, KeyError, AssertionError or a user-defined Exception subclass: constructor, dataclasses.replace, replace(), "
+        "duplicate() (half-way) and as_obj then raise with the new node(s) already registered. "
         "After every operation: result (ids exactly), for every node of every held tree id and get_any(id), for every held "
         "root Cls.get(id) strict/non-strict for every class of the family and ASTNode, for every node ever seen whether its "
-        "weakref is alive and what get_any(old id) returns. non-trivial = at least 3 operations took effect; distinct = "
+        "weakref is alive and what get_any(old id) returns, for as_obj position by position whether the result is an object "
+        "seen before (the live original) or a new one. non-trivial = at least 3 operations took effect; distinct = "
         "distinct input terms")
 TRUSTED_BASE = [
     "model coq/Model/Registry.v hand-written from node.py (NODE_REGISTRY, _get_next_unique_id, __post_init__, get/get_any, "
@@ -47,9 +54,10 @@ TRUSTED_BASE = [
 ASSUMPTIONS = [
     "class identity is the class name; RUNTIME_TYPE_CHECK is off (pyoak default), child fields are init fields",
     "non-init fields always hold their declared default",
-    "as_dict/as_obj is outside the operation set of the histories (its registry effect is modelled and proved about separately: "
-    "coq/Model/RegistrySer.v, C03_deser_inv, C03_force_inv, C03_refuted_forced_id_evicts_child)",
-    "validating classes call super().__post_init__() first and raise ValueError afterwards; every class along the MRO cooperates",
+    "as_dict/as_obj: the dict is an opaque value between the two calls (its JSON form and the fidelity of property values are "
+    "C04's); the class as_obj is called on is the class of the serialized root; a value slot holds no reference to a node",
+    "validating classes call super().__post_init__() first and raise afterwards (any Exception subclass, none derived from "
+    "BaseException directly); every class along the MRO cooperates; every late failure is the model's single outcome Raised",
 ]
 
 ORIGINS = [
@@ -799,7 +807,8 @@ def gen_cases(rng, tier):
     # implementation-only probe of the forced-id path of as_obj (finding C03:asobj-forced-id-evicts-live-child, repaired in
     # /repo): a fixed 1-byte-digest collision scenario, kept as the regression case; rides on a short valid history
     if cases:
-        c0 = min(cases, key=lambda c: len(to_text(c["input"])))
+        plain = [c for c in cases if not c["kind"].endswith("+asobj")] or cases   # (a history generated for 8-byte digests
+        c0 = min(plain, key=lambda c: len(to_text(c["input"])))                 #  trusts as_obj results: not to be re-run at 1 byte)
         cases.append(dict(c0, kind="probe:asobj-forced-id", digest_size=1, opts=dict(c0["opts"], probe="asobj_forced_id")))
     return cases
 
